@@ -202,12 +202,24 @@ def run(ctx):
     for i, cfg in enumerate(cfgs):
         res, cs = ctx.model_check("mpu/MC_MPU.tla", cfg, emit=True, timeout=1800, coverage=(i == 0))
         cases.extend(cs)
+    # 6 - 8 partitions: simulated behaviours (every invariant checked along the way), terminal histories emitted like the others
+    res, cs = ctx.model_check("mpu/MC_MPU.tla", "MC_MPU_wide.cfg", emit=True, timeout=1800, simulate=f"num={400 if ctx.quick() else 6000}", depth=60, seed=ctx.seed,
+                              workers=1, label="MC_MPU/wide simulation")
+    wide = []
+    seenw = set()
+    for c in cs:
+        k = json.dumps(c, sort_keys=True)
+        if k not in seenw:
+            seenw.add(k)
+            wide.append(c)
+    wide.sort(key=lambda c: json.dumps(c, sort_keys=True))
+    ctx.extra["wide_behaviours"] = len(wide)
     for v, inv in (("final", "NoFail"), ("spill", "MinSize"), ("leftid", "IdsUnique")):
         ctx.model_check("mpu/MC_MPU.tla", f"MC_MPU_asfound_{v}.cfg", expect_violation=inv, timeout=600,
                         label=f"MC_MPU/asfound_{v}")
     cases.sort(key=lambda c: json.dumps(c, sort_keys=True))
     total = len(cases)
-    cases = ctx.subsample(cases, 12000 if ctx.quick() else 150000)
+    cases = ctx.subsample(cases, 12000 if ctx.quick() else 150000) + ctx.subsample(wide, 1500 if ctx.quick() else 30000)
     events = ctx.pmap(replay_behaviour, cases)
     verdicts = _validate(ctx, events)
     for ev, v in zip(events, verdicts):
@@ -222,7 +234,8 @@ def run(ctx):
         if k not in seen:
             seen.add(k)
             dcfgs.append(c["cfg"])
-    dcfgs = ctx.subsample(dcfgs, 400 if ctx.quick() else 5000)
+    wcfgs = [c for c in dcfgs if len(c["shape"]) >= 6]
+    dcfgs = ctx.subsample([c for c in dcfgs if len(c["shape"]) < 6], 400 if ctx.quick() else 5000) + ctx.subsample(wcfgs, 40 if ctx.quick() else 600)
     devents = dask_phase(ctx, dcfgs, 2 if ctx.quick() else 4)
     dverdicts = _validate(ctx, devents)
     for ev, v in zip(devents, dverdicts):
